@@ -26,7 +26,7 @@ impl Deserialize for VotingProposals {
                 cbor_event::Len::Len(n) => arr.len() < n as usize,
                 cbor_event::Len::Indefinite => true,
             } {
-                if is_break_tag(raw, "VotingProposals")? {
+                if is_break_tag(raw, len, "VotingProposals")? {
                     break;
                 }
                 arr.push(VotingProposal::deserialize(raw)?);
